@@ -108,7 +108,9 @@ def findNeighbors (numFaces : Nat) (fi : List FaceIx) : List (List Nat) :=
 
 /-- the value returned by `get_dihedral` once the neighbour test passed:
     `np.arccos(np.dot(-n1, n2))` -/
-def dihedralAngle (n1 n2 : V3 α) : α := Scalar.acos (V3.dot (-n1) n2)
+def dihedralAngle (n1 n2 : V3 α) : α :=
+  -- as repaired: `np.arccos(np.clip(np.dot(-n1, n2), -1.0, 1.0))`
+  Scalar.acos (Scalar.min (Scalar.max (V3.dot (-n1) n2) (-(lit 1))) (lit 1))
 
 /-- `Polyhedron.get_dihedral(a, b)`:
     `if b not in self.neighbors[a]: raise ValueError`; `n1, n2 = self._equations[[a, b], :3]` -/
